@@ -76,7 +76,10 @@ TB_M11 = ['vm/contracts.go bigModExp.RequiredGas and Run (MODEXP, 0x05) are mode
           'table entries of Byzantium/Istanbul/Berlin on structured inputs (edge operands 0/1/2/all-ones, truncated inputs, header-only inputs whose price '
           'is near a multiple of 2^64) and comparing price and, up to a price of 3 000 000, output; the other standard precompiles are compared '
           'with go-ethereum v1.12.0 only (price: S stdgas, result: S stdrun)',
-          'the allocation RightPadBytes makes for a huge length word is not modelled (the call is refused for want of gas before Run)']
+          'the allocations RightPadBytes / LeftPadBytes make for a length of about 2^48 bytes or more are not modelled (Go panics with makeslice: len out of '
+          'range, the model returns the padded list); such lengths are priced at MaxUint64 and reach Run only in a call that supplies exactly 2^64-1 gas; '
+          'go-ethereum v1.12.0 behaves identically. An independent audit compared model and code on about 100 000 inputs (length words up to 2^256, truncated '
+          'inputs) and found one difference, since corrected: LeftPadBytes with int(modLen) negative pads nothing (run_unpadded)']
 
 PROPS = {
     'C01': {
